@@ -33,9 +33,16 @@ func mixCase(r *core.Rand, s string) string {
 }
 
 // spell gives one listed spelling of a base host.
+func port(r *core.Rand) string {
+	if r.Chance(1, 3) {
+		return fmt.Sprint(r.Intn(65536))
+	}
+	return r.Pick(ports...)
+}
+
 func spell(r *core.Rand, base string) string {
 	isV6 := strings.Contains(base, ":")
-	isDNS := !isV6 && (base[0] < '0' || base[0] > '9' || strings.Contains(base, "com"))
+	isDNS := !isV6 && (base[0] < '0' || base[0] > '9' || strings.Contains(base, "com") || reLDH.MatchString(base) && !reAllNums.MatchString(base))
 	h := base
 	if isDNS {
 		h = mixCase(r, base)
@@ -45,9 +52,9 @@ func spell(r *core.Rand, base string) string {
 	if r.Chance(1, 2) {
 		core.Count("spelling:with-port")
 		if isV6 {
-			return "[" + h + "]:" + r.Pick(ports...)
+			return "[" + h + "]:" + port(r)
 		}
-		return h + ":" + r.Pick(ports...)
+		return h + ":" + port(r)
 	}
 	core.Count("spelling:bare")
 	return h
@@ -62,6 +69,10 @@ var oddHosts = []string{"[::1]", "[2001:db8::1]", "[::1", "::1]", "a:b:c", "exa 
 func pool(r *core.Rand, n int) []string {
 	var p []string
 	for i := 0; i < n; i++ {
+		if r.Chance(1, 2) { // a member of the class, not of the table
+			p = append(p, genBase(r))
+			continue
+		}
 		switch r.Intn(6) {
 		case 0:
 			p = append(p, v4Bases[r.Intn(len(v4Bases))])
@@ -85,6 +96,12 @@ func sniFor(r *core.Rand, p []string) string {
 }
 
 func getOp(r *core.Rand, p []string, allowHS bool) string {
+	op, _ := getOpHost(r, p, allowHS)
+	return op
+}
+
+// getOpHost also returns the host the request names (SNI, else the fallback of TLSForHost; "" if none).
+func getOpHost(r *core.Rand, p []string, allowHS bool) (string, string) {
 	fb := spell(r, p[r.Intn(len(p))])
 	if r.Chance(1, 14) {
 		fb = emptyHosts[r.Intn(len(emptyHosts))]
@@ -105,7 +122,11 @@ func getOp(r *core.Rand, p []string, allowHS bool) string {
 	if allowHS && r.Chance(1, 4) && (sni == "" || reLDH.MatchString(sni) && !reAllNums.MatchString(sni)) {
 		op = "hs"
 	}
-	return fmt.Sprintf("%s %s %s %s", op, mode, core.HexS(fb), core.HexS(sni))
+	host := sni
+	if host == "" {
+		host = fb
+	}
+	return fmt.Sprintf("%s %s %s %s", op, mode, core.HexS(fb), core.HexS(sni)), host
 }
 
 func hexList(hs []string) string {
@@ -126,9 +147,9 @@ func concOp(r *core.Rand, p []string, n int) string {
 		h := base
 		if r.Chance(1, 3) { // same cache key, different spelling (port); case changes would be another key
 			if strings.Contains(base, ":") {
-				h = "[" + base + "]:" + r.Pick(ports...)
+				h = "[" + base + "]:" + port(r)
 			} else {
-				h = base + ":" + r.Pick(ports...)
+				h = base + ":" + port(r)
 			}
 		}
 		hs = append(hs, h)
@@ -217,7 +238,9 @@ func mutate(r *core.Rand, s string) string {
 }
 
 func genIPString(r *core.Rand) string {
-	switch r.Intn(10) {
+	switch r.Intn(11) {
+	case 10:
+		return mutate(r, genValidV6(r))
 	case 0:
 		return v6Bases[r.Intn(len(v6Bases))]
 	case 1:
@@ -234,7 +257,11 @@ func genIPString(r *core.Rand) string {
 
 func genHostPort(r *core.Rand) string {
 	var host string
-	switch r.Intn(8) {
+	switch r.Intn(10) {
+	case 8:
+		host = genValidV6(r)
+	case 9:
+		host = genBase(r)
 	case 0:
 		host = ""
 	case 1:
@@ -264,9 +291,9 @@ func genHostPort(r *core.Rand) string {
 // ---- cases ----
 
 func (P) Gen(r *core.Rand, tier string, emit func([]string)) {
-	nBasic, nExp, nConc, nRef, nOdd, nLib := 12, 4, 6, 4, 5, 60
+	nBasic, nExp, nConc, nRef, nOdd, nLib, nVfy := 12, 4, 6, 4, 5, 60, 25
 	if tier == "thorough" {
-		nBasic, nExp, nConc, nRef, nOdd, nLib = 160, 30, 60, 30, 60, 3000
+		nBasic, nExp, nConc, nRef, nOdd, nLib, nVfy = 160, 30, 60, 30, 60, 3000, 600
 	}
 	orgs := []string{"Martian Proxy", "Acme", "Org With Spaces, Inc.", "x"}
 	for i := 0; i < nBasic; i++ {
@@ -283,7 +310,22 @@ func (P) Gen(r *core.Rand, tier string, emit func([]string)) {
 			if r.Chance(1, 18) {
 				ops = append(ops, "org "+core.HexS(r.Pick(orgs...)))
 			}
-			ops = append(ops, getOp(r, p, true))
+			op, host := getOpHost(r, p, true)
+			ops = append(ops, op)
+			if _, class := classify(host); class == "listed" && r.Chance(1, 3) {
+				ops = append(ops, afterGet(r, host, p)...)
+			}
+		}
+		emit(ops)
+	}
+	for i := 0; i < nVfy; i++ { // the verifier itself: hand-made certificates x host spellings x window edges
+		var ops []string
+		for j := 0; j < 24; j++ {
+			if r.Chance(2, 3) {
+				ops = append(ops, vhOp(r))
+			} else {
+				ops = append(ops, vfyOp(r))
+			}
 		}
 		emit(ops)
 	}
